@@ -129,7 +129,8 @@ def mutants(r, doc, n):
             get(d, p[:-1])["entries"] = -1.0
             out.append(("negative entries at /%s" % "/".join(map(str, p)), d))
         else:
-            v = r.choice(["2.0", "1.2", "3.0.1", "abc", "1", 1.1, None, ""])
+            v = r.choice(["2.0", "1.2", "3.0.1", "abc", "1", 1.1, None, "", "1.05", "1.09", "01.7", "1.", "1.!",
+                          "0.banana", "1.10"])
             d["version"] = v
             out.append(("version %r" % (v,), d))
     return out
